@@ -29,10 +29,30 @@ OPS = ["CreateBucket", "PutVersioning", "PutObject", "DeleteObject", "CopyObject
        "UploadPartCopy", "CompleteUpload", "Transition"]
 
 
+def inherit(mycfg, basecfg, subst=None):
+    """Constants the shared Pithos cfg `basecfg` assigns and `mycfg` does not: the shared specs (PithosMC /
+    PithosGen / PithosTrace) grow new constants over time; their owner maintains the shared cfg, this keeps the
+    module's own cfg in step.  Returned merged with `subst` (which wins)."""
+    import re
+    pat = re.compile(r"^\s*(?:CONSTANTS?\s+)?(\w+)\s*=\s*(.+?)\s*$")
+    def consts(path):
+        out = {}
+        for line in open(path):
+            m = pat.match(line)
+            if m and m.group(1) not in ("SPECIFICATION", "INIT", "NEXT", "INVARIANT", "PROPERTY", "VIEW"):
+                out[m.group(1)] = m.group(2)
+        return out
+    cfgdir = os.path.join(vlib.SPEC, "cfg")
+    mine, base = consts(os.path.join(cfgdir, mycfg)), consts(os.path.join(cfgdir, basecfg))
+    out = {k: v for k, v in base.items() if k not in mine}
+    out.update(subst or {})
+    return out
+
+
 def generate(ctx, nprog, ncases, depth, seed):
     subst = {"Ops": pithos.tla_set(OPS), "GenDepth": str(depth), "NCases": str(ncases)}
     r = ctx.tlc("IntegrityGen", "Integrity.Gen.cfg", workers=1, simulate="num=%d" % nprog, depth=depth + 1, seed=seed,
-                timeout=600, count_mc=False, subst=subst)
+                timeout=600, count_mc=False, subst=inherit("Integrity.Gen.cfg", "Pithos.Gen.cfg", subst))
     progs = [p for p in r.printed if isinstance(p, dict) and "calls" in p]
     ctx.log("GEN: %d programs, %.1fs" % (len(progs), r.wall))
     if len(progs) < nprog:
@@ -92,7 +112,8 @@ def validate(ctx, groups):
         f = ctx.path("tv-%d.ndjson" % rounds)
         vlib.write_ndjson(f, flat)
         r = ctx.tlc("IntegrityTrace", "Integrity.Trace.cfg", workers=1, timeout=1800, env={"TRACE_FILE": f},
-                    count_mc=False, xss="64m", subst={"Deviations": deviations, "IDeviations": ideviations})
+                    count_mc=False, xss="64m",
+                    subst=inherit("Integrity.Trace.cfg", "Pithos.Trace.cfg", {"Deviations": deviations, "IDeviations": ideviations}))
         if r.outcome != "ok":
             raise vlib.Infra("trace validation did not run to completion: %s\n%s" % (r.outcome, r.output[-4000:]))
         ctx.transitions += r.generated
@@ -111,6 +132,10 @@ def validate(ctx, groups):
         why = [d for d in r.printed if isinstance(d, dict) and d.get("l") == consumed + 1 and d.get("what") not in ("validate", "deviation")]
         ctx.log("program %s dropped: line %d (%s) not explained while building the state%s" % (
             pending[k][0].get("prog"), consumed + 1, json.dumps(bad["call"])[:200], (": mismatch in " + why[0]["what"]) if why else ""))
+        if bad["call"]["op"] == "Corrupt":
+            ctx.log("  corrupt line: %s; physical parts of the model: %s; program: %s" % (
+                json.dumps(bad.get("corr")), json.dumps(why[0].get("parts") if why else None),
+                json.dumps([ln["call"] for ln in pending[k][1:] if "res" in ln])[:3000]))
         dropped.append({"prog": pending[k][0].get("prog"), "call": bad["call"], "what": why[0]["what"] if why else "?"})
         first = sum(len(g) for g in pending[:k])
         records += [d for d in recs if d["l"] <= first]
@@ -119,71 +144,7 @@ def validate(ctx, groups):
     return records, dropped
 
 
-def run(ctx):
-    # 1. design level: the intended validator satisfies C39 on every reachable state x corruption set x deletion mode
-    if ctx.quick():
-        ctx.mc("Integrity", "Integrity.MC.cfg", workers=8, timeout=900,
-               subst={"Classes": '{"none"}', "MCStacks": '{"fs"}', "MaxClock": "4"})
-    else:
-        ctx.mc("Integrity", "Integrity.MC.cfg", workers=12, timeout=2400,
-               subst={"Classes": '{"none", "GLACIER"}', "MCStacks": '{"classes"}', "MaxClock": "4"})
-        ctx.mc("Integrity", "Integrity.MC.cfg", workers=12, timeout=2400,
-               subst={"Classes": '{"none"}', "MCStacks": '{"fs"}', "MaxClock": "5"})
-    # the deviations of the code are observable in the same model (guards against a vacuous C39Holds)
-    d = ctx.tlc("Integrity", "Integrity.Dev.cfg", workers=2, timeout=600, count_mc=False,
-                subst={"Classes": '{"none"}', "MCStacks": '{"fs"}', "MaxClock": "3",
-                       "IDeviations": '{"D-C39-single-part-composite-etag"}'})
-    if d.outcome != "invariant":
-        raise vlib.Infra("the model with a deviation enabled does not violate C39 within the bounds (%s)" % d.outcome)
-
-    # 2. GEN -> real code -> TV
-    drv = ctx.gobuild("integrity")
-    nprog = ctx.pick(12, 150)
-    ncases = ctx.pick(4, 6)
-    depth = ctx.pick(12, 14)
-    progs = generate(ctx, nprog, ncases, depth, ctx.seed)
-    cf, tf = ctx.path("cases.ndjson"), ctx.path("trace.ndjson")
-    vlib.write_ndjson(cf, progs)
-    p = ctx.run([drv, "run", ctx.path("work"), cf, tf], timeout=3000)
-    ctx.log(p.stdout.strip().splitlines()[-1])
-    groups = split_programs(vlib.read_ndjson(tf))
-    if len(groups) != 2 * len(progs) or any(len(g) != 1 + depth + 2 * ncases for g in groups):
-        raise vlib.Infra("driver executed %d of %d (program, stack) pairs completely" % (len(groups), 2 * len(progs)))
-    ctx.sample({"calls": progs[0]["calls"][:6], "cases_fs": progs[0]["cases"]["fs"][:2]})
-    # binding self-test input: one program with objects, its last Validate line falsified
-    st = [g for g in groups if has_objects(g)]
-    if not st:
-        raise vlib.Infra("no program left an object behind")
-    records, dropped = validate(ctx, groups + [falsified(st[0])])
-    fake = [r for r in records if r["prog"] == 999999]
-    records = [r for r in records if r["prog"] != 999999]
-    if not fake or fake[-1]["verdict"] != "mismatch" or any(r["verdict"] == "mismatch" for r in fake[:-1]):
-        raise vlib.Infra("binding self-test failed: a falsified validator report was not (exactly) rejected: %s" %
-                         [r["verdict"] for r in fake])
-    ctx.extra["binding_selftest"] = "falsified report (copy of program %s) rejected" % st[0][0]["prog"]
-    ctx.traces = len(records)
-    ctx.evaluations = len(records)
-    ncase = 2 * len(progs) * ncases
-    if len(dropped) * 5 > len(groups):
-        raise vlib.Infra("%d of %d programs dropped while building the state: %s" % (len(dropped), len(groups), dropped[:3]))
-
-    # 3. verdicts
-    for r in records:
-        line = r["line"]
-        wit = {"prog": r["prog"], "case": r["case"], "stack": r["stack"], "del": r["del"], "report_expected": r["report"],
-               "got": {k: line[k] for k in ("err", "failed", "passed", "deleted")}}
-        if r["verdict"] == "finding":
-            for t in r["tags"]:
-                ctx.finding(t, wit)
-        elif r["verdict"] == "mismatch":
-            g = next(g for g in groups if g[0]["prog"] == r["prog"])
-            rp = ctx.path("replay-%d-%d.ndjson" % (r["prog"], r["case"]))
-            vlib.write_ndjson(rp, g)
-            ctx.violation(rp, "program %s case %s (%s, deleteCorrupted=%s): validator outcome %s is not the model's %s (views %s); corruption %s" % (
-                r["prog"], r["case"], r["stack"], r["del"], json.dumps(wit["got"]), json.dumps(r["expected"]),
-                "agree" if r["views_ok"] else "differ", json.dumps(g[g.index(line) - 1]["corr"])))
-
-    # 4. coverage
+def coverage(records, dropped):
     f = [r["facts"] for r in records]
     cov = {
         "cases": len(f),
@@ -205,12 +166,103 @@ def run(ctx):
     for r in records:
         key = ",".join(sorted(r["dev"])) or "intended"
         cov["explained_by"][key] = cov["explained_by"].get(key, 0) + 1
+    need = ["cases_report_and_intact", "cases_shared_part_damaged", "cases_multipart_reported", "cases_single_part_composite_etag",
+            "cases_cold_store", "cases_versioned_reported", "cases_no_corruption", "cases_delete_with_report",
+            "cases_only_uncovered_parts_damaged"]
+    missing = [k for k in need if cov[k] == 0] + ([] if len(cov["kinds"]) == 4 else ["kinds"])
+    if cov["cases_with_report"] < 2:
+        missing.append("cases_with_report")
+    return cov, missing
+
+
+def run(ctx):
+    # 1. design level: the intended validator satisfies C39 on every reachable state x corruption set x deletion mode
+    if os.environ.get("VERIF_SKIP_MC"):      # debugging aid only (mutation runs)
+        pass
+    elif ctx.quick():
+        ctx.mc("Integrity", "Integrity.MC.cfg", workers=8, timeout=900,
+               subst=inherit("Integrity.MC.cfg", "Pithos.MCver.cfg", {"Classes": '{"none"}', "MCStacks": '{"fs"}', "MaxClock": "4"}))
+    else:
+        ctx.mc("Integrity", "Integrity.MC.cfg", workers=12, timeout=2400,
+               subst=inherit("Integrity.MC.cfg", "Pithos.MCver.cfg",
+                             {"Classes": '{"none", "GLACIER"}', "MCStacks": '{"classes"}', "MaxClock": "4"}))
+        ctx.mc("Integrity", "Integrity.MC.cfg", workers=12, timeout=2400,
+               subst=inherit("Integrity.MC.cfg", "Pithos.MCver.cfg", {"Classes": '{"none"}', "MCStacks": '{"fs"}', "MaxClock": "5"}))
+    # the deviations of the code are observable in the same model (guards against a vacuous C39Holds)
+    d = ctx.tlc("Integrity", "Integrity.Dev.cfg", workers=2, timeout=600, count_mc=False,
+                subst=inherit("Integrity.Dev.cfg", "Pithos.MCver.cfg",
+                              {"Classes": '{"none"}', "MCStacks": '{"fs"}', "MaxClock": "3",
+                               "IDeviations": '{"D-C39-single-part-composite-etag"}'}))
+    if d.outcome != "invariant" and not os.environ.get("VERIF_SKIP_MC"):
+        raise vlib.Infra("the model with a deviation enabled does not violate C39 within the bounds (%s)" % d.outcome)
+
+    # 2. GEN -> real code -> TV; a batch whose random cases leave a coverage gap is followed by another one
+    drv = ctx.gobuild("integrity")
+    nprog = ctx.pick(12, 60)
+    ncases = ctx.pick(5, 7)
+    depth = ctx.pick(12, 14)
+    records, dropped, groups, ngroups = [], [], [], 0
+    for batch in range(3):
+        progs = generate(ctx, nprog, ncases, depth, ctx.seed + 7919 * batch)
+        for p in progs:
+            p["id"] += batch * 1000
+        cf, tf = ctx.path("cases-%d.ndjson" % batch), ctx.path("trace-%d.ndjson" % batch)
+        vlib.write_ndjson(cf, progs)
+        p = ctx.run([drv, "run", ctx.path("work"), cf, tf], timeout=3000)
+        ctx.log(p.stdout.strip().splitlines()[-1])
+        gs = split_programs(vlib.read_ndjson(tf))
+        if len(gs) != 2 * len(progs) or any(len(g) != 1 + depth + 2 * ncases for g in gs):
+            raise vlib.Infra("driver executed %d of %d (program, stack) pairs completely" % (len(gs), 2 * len(progs)))
+        extra = []
+        if batch == 0:
+            ctx.sample({"calls": progs[0]["calls"][:6], "cases_fs": progs[0]["cases"]["fs"][:2]})
+            # binding self-test input: one program with objects, its last Validate line falsified
+            st = [g for g in gs if has_objects(g)]
+            extra = [falsified(st[0])] if st else []
+        recs, drp = validate(ctx, gs + extra)
+        if batch == 0 and extra:
+            fake = [r for r in recs if r["prog"] == 999999]
+            recs = [r for r in recs if r["prog"] != 999999]
+            orig = [r["verdict"] for r in recs if r["prog"] == st[0][0]["prog"]]
+            if not fake or fake[-1]["verdict"] != "mismatch" or [r["verdict"] for r in fake[:-1]] != orig[:-1]:
+                raise vlib.Infra("binding self-test failed: a falsified validator report was not (exactly) rejected: %s vs %s" %
+                                 ([r["verdict"] for r in fake], orig))
+            ctx.extra["binding_selftest"] = "falsified report (copy of program %s) rejected" % st[0][0]["prog"]
+        records += recs
+        dropped += drp
+        groups += gs
+        cov, missing = coverage(records, dropped)
+        if not missing:
+            break
+        ctx.log("coverage gap after batch %d: %s" % (batch + 1, missing))
+    ctx.traces = len(records)
+    ctx.evaluations = len(records)
+    if len(dropped) * 5 > len(groups):
+        raise vlib.Infra("%d of %d programs dropped while building the state: %s" % (len(dropped), len(groups), dropped[:3]))
+
+    # 3. verdicts
+    for r in records:
+        line = r["line"]
+        wit = {"prog": r["prog"], "case": r["case"], "stack": r["stack"], "del": r["del"], "report_expected": r["report"],
+               "got": {k: line[k] for k in ("err", "failed", "passed", "deleted")}}
+        if r["verdict"] == "finding":
+            for t in r["tags"]:
+                ctx.finding(t, wit)
+        elif r["verdict"] == "mismatch":
+            g = next(g for g in groups if g[0]["prog"] == r["prog"])
+            rp = ctx.path("replay-%d-%d.ndjson" % (r["prog"], r["case"]))
+            vlib.write_ndjson(rp, g)
+            ctx.violation(rp, "program %s case %s (%s, deleteCorrupted=%s): validator outcome %s is not the model's %s (views %s); corruption %s" % (
+                r["prog"], r["case"], r["stack"], r["del"], json.dumps(wit["got"]), json.dumps(r["expected"]),
+                "agree" if r["views_ok"] else "differ", json.dumps(g[g.index(line) - 1]["corr"])))
+
+    if "binding_selftest" not in ctx.extra and ctx.violations == 0:
+        raise vlib.Infra("no program left an object behind: binding self-test impossible")
+
+    # 4. coverage
     ctx.extra.update(cov)
     ctx.extra["distinct_nontrivial"] = cov["cases_with_report"]
-    need = ["cases_with_report", "cases_report_and_intact", "cases_shared_part_damaged", "cases_multipart_reported",
-            "cases_cold_store", "cases_no_corruption", "cases_delete_with_report", "cases_only_uncovered_parts_damaged"]
-    missing = [k for k in need if cov[k] == 0] + ([] if len(cov["kinds"]) == 4 else ["kinds"])
-    if missing or cov["cases_with_report"] < 2:
+    if missing and ctx.violations == 0:
         raise vlib.Infra("coverage too thin: %s (%s)" % (missing, json.dumps(cov)))
     ctx.log("coverage", json.dumps({k: v for k, v in cov.items() if k != "dropped_state_building"}))
     ctx.assumptions += [
